@@ -134,6 +134,11 @@ ADDED_R13 = {
  "C18": "(throttle) close right after the transport takes everything again: 'writable' and the close request in one wake-up, the buffer empty when the close is taken.",
  "C19": "(urlslice) amqps://localhost?connection_timeout=400 against a peer that accepts and stays silent must end in ConnectionTimeout (real time: 10 s allowed, one retry).",
 }
+ADDED_R14 = {
+ "C03": "(dispatch-content) the server cancels one of the two consumers on channel 1: the other consumers go on receiving, in order.",
+ "C17": "(hb) the server breaks the protocol and then falls silent: MissedServerHeartbeats 2h behind its last byte when the client's Close is stuck behind a peer that stopped reading; an end by ClientException once the Close is out is not a liveness verdict.",
+ "C20": "(batch) absolute oracle next to the differential one: Channel::close returns Ok only if the server's CloseOk for that channel was read.",
+}
 ADDED_R12 = {
  "C02": "a high-water mark below one message (default low-water mark), with and without a stalled transport: throttling episodes while the messages go out.",
  "C03": "what the server still had in its pipe when the client's Connection.Close reached it (a delivery, a returned message, ahead of its CloseOk) still reaches its addressee.",
@@ -184,6 +189,8 @@ def main():
                 text = text + " Added in round 12: " + ADDED_R12[pid]
             if pid in ADDED_R13:
                 text = text + " Added in round 13: " + ADDED_R13[pid]
+            if pid in ADDED_R14:
+                text = text + " Added in round 14: " + ADDED_R14[pid]
             if pid == "C12":
                 # the clause "on the right channel" is decided on a live connection (simx ids)
                 cat, engine = "model_checking", "seqx+simx"
